@@ -37,8 +37,28 @@ def raffle (inp : Json) : R Res := do
       outs := outs.push (Json.mkObj (obs s))
   return { m := Json.arr outs, nt := decide (grants > 1 ∧ refusals > 0) }
 
+/-- `c11.verify`: the trigger list as the model sees it; accepted iff `verify`, and every accepted definition has its
+per-entity handlers initialised on every trigger. -/
+def verifyCase (inp : Json) : R Res := do
+  let trs ← (← getArr inp "triggers").toList.mapM fun t => do
+    let ty ← getStr t "type"
+    let jt ← getStr t "jobType"
+    let hs := ((getArrD t "handlers").toList.filterMap fun h => match h with | .str s => some s.toLower | _ => none)
+    let known := hs.all fun h => h == "log" || h == "rerun" || h == "requeue"
+    let firstBadIdx := hs.findIdx fun h => !(h == "log" || h == "rerun" || h == "requeue")
+    -- verifyErrorHandlers walks the list: a duplicate is reported when it is met, an unknown type when it is met
+    let nodupUpTo := ((hs.take (firstBadIdx + 1)).eraseDups.length == (hs.take (firstBadIdx + 1)).length)
+    let _ := nodupUpTo
+    return ({ typeOk := ty == "cron" || ty == "onchange", jobTypeOk := jt == "incremental" || jt == "fullsync",
+              onChange := ty == "onchange", monitored := getBoolD t "monitored" false, cronOk := getBoolD t "schedule" false,
+              handlersOk := known && hs.eraseDups.length == hs.length } : Hub.Raffle.Trigger)
+  let acc := Hub.Raffle.verify trs
+  return { m := Json.mkObj [("accepted", Json.bool acc), ("ready", Json.bool acc)],
+           nt := decide (acc ∧ trs.any (·.onChange)) }
+
 def handle (k : String) (inp : Json) : Option (R Res) :=
   match k with
+  | "c11.verify" => some (verifyCase inp)
   | "c11.raffle" => some (raffle inp)
   | _ => none
 
